@@ -8,6 +8,18 @@ CHECKS = {
  "C01": dict(cat="model_checking", ref="DESIGN.md 4 C01", tech="TLA+ rule book (Chess.tla) evaluated by TLC: trace validation of engine walks + TLC-enumerated position families replayed into the move generator",
    text="Every recorded position's move list, flags and check verdict are compared by TLC with the first-principles rule book; seven mechanism-directed families of legal positions are enumerated by TLC with their expected move sets and replayed into the real generator, both colours. Exact oracle, bounded input space.",
    note="Trusted: Chess.tla (sanity-checked by perft 20/400/8902 in TLC), TLC, the harness projection (piece_at / Move accessors). Positions outside the families and walks are not examined."),
+ "C02": dict(cat="model_checking", ref="DESIGN.md 4 C02", tech="TLA+ state machine ChessGame.tla model-checked with TLC (CodeView => PropertyView), trace validation of engine walks, replay of TLC-simulated behaviours",
+   text="ChessGame.tla transcribes make/undo/null micro-step by micro-step; TLC checks exhaustively on a bounded model (12 roots, nesting depth 2 quick / 3 thorough, all interleavings of move/null/undo) that the transcription yields the rule book's successor, restores every saved field and keeps the three board views in agreement. Real executions are bound to it in both directions: every walk operation is validated against the action's successor state, and TLC-simulated behaviours (moves chosen by the rule book) are replayed through the real make/undo with field-by-field comparison.",
+   note="Trusted: Chess.tla/ChessGame.tla, TLC, harness projection. Bounded nesting depth in the model; walks/behaviours are samples."),
+ "C03": dict(cat="model_checking", ref="DESIGN.md 4 C03", tech="TLA+ key-as-component-set model checked with TLC; trace validation incl. XOR of the engine's real words selected by the spec; sort-by-key collision clause",
+   text="The key is modelled as the set of active components (XOR = symmetric difference); TLC checks KeyConsistent on the bounded ChessGame model. On every recorded event TLC compares the carried key with the from-scratch key and with the XOR (Bitwise) of the engine's own 838 words selected by the specification; per trace file events are sorted by key and equal keys must be identical positions; the 838 words are pairwise distinct and non-zero.",
+   note="Collisions are sought within one trace file only. Word table read through the public toggle API."),
+ "C11": dict(cat="model_checking", ref="DESIGN.md 4 C11", tech="TLA+ rule-book repetition scan / fifty-move / dead-material definitions evaluated by TLC on engine traces; window rule model-checked; TLC-enumerated material signatures replayed",
+   text="TLC model-checks that the engine's window rule (last halfmove-clock saved keys) coincides with the rule-book definition on null-free histories of the bounded model, validates the three verdicts on every event of walks that seek repetitions and drive clocks across 100 (FEN roots with non-zero clocks included), and enumerates material signatures (<=3 extra pieces, 12 king placements) with the stated verdicts.",
+   note="With null moves in the history only soundness of the repetition verdict is required (as designed). Material cases on which the property is silent are CodeView only."),
+ "C15": dict(cat="model_checking", ref="DESIGN.md 4 C15", tech="TLA+ accumulator model checked with TLC (AccConsistent), trace validation against IncrementalEvalFields::init and the engine's own tables summed by TLC",
+   text="The accumulator is a specification variable updated inside the set/remove micro-steps; TLC checks it equals the from-scratch value in every state of the bounded model. Every recorded event compares the carried (phase, mg, eg) with the recomputation, and events with equal keys must have equal static evaluation.",
+   note="Table-sum clause is CodeView (drift) so that a refactoring of the evaluation terms does not alarm."),
 }
 
 def main():
